@@ -166,6 +166,10 @@ func verifyFunc(l *Loaded, spec *FuncSpec, prop string) (res *FuncResult) {
 			}
 		}
 	}()
+	if sp.HashInj {
+		x.verifyHashInj(l, fn, &sp, prop)
+		return
+	}
 	st := &State{Heap: map[int]Val{}, Worlds: map[int]map[string]T{0: {}}}
 	x.initGhost(st)
 	var args []Val
@@ -556,3 +560,83 @@ func main() {
 
 var _ = json.Marshal
 var _ = filepath.Join
+
+
+// verifyHashInj: 2-safety check for claim identifiers. The Hash method is executed on two independent symbolic
+// receivers; for every field F of the message, if all other fields agree and the sha256 pre-images are equal then
+// F agrees (sha256 collision resistance is assumed, so equal hashes mean equal pre-images).
+func (x *Exec) verifyHashInj(l *Loaded, fn *ssa.Function, sp *FuncSpec, prop string) {
+	e := x.e
+	type run struct {
+		recv Val
+		pre  T
+		pc   []T
+		term T
+	}
+	runs := make([][]run, 2)
+	for i := 0; i < 2; i++ {
+		st := &State{Heap: map[int]Val{}, Worlds: map[int]map[string]T{0: {}}}
+		x.initGhost(st)
+		p := fn.Params[0]
+		v := x.havocValLike(st, x.tryZero(st, p.Type()), fmt.Sprintf("ev%d", i+1), p.Type())
+		if pv, ok := v.(*PtrV); ok {
+			pv.Nil = TFalse
+		}
+		fr := &Frame{fn: fn, env: map[ssa.Value]Val{p: v}, loops: map[int]*loopRun{}, spec: sp, args: []Val{v}, loopSet: findLoops(fn)}
+		st.Frames = []*Frame{fr}
+		cpre := x.envFor(st, nil, fr, nil)
+		for _, r := range sp.Requires {
+			st.assume(x.evalClause(cpre, r), "requires "+r.Name)
+		}
+		x.entry = st.clone()
+		x.shaArgs, x.shaPCs = nil, nil
+		x.tryPath(func() { x.execBlock(st, fr, fn.Blocks[0], nil, func(s2 *State, result Val) {}) })
+		if len(x.shaArgs) == 0 {
+			x.fail("hash-injective: no sha256 pre-image found")
+		}
+		pt := p.Type().(*types.Pointer)
+		term := e.reify(x.entry, e.load(x.entry, v.(*PtrV)), pt.Elem())
+		for k := range x.shaArgs {
+			runs[i] = append(runs[i], run{recv: v, pre: x.shaArgs[k], pc: x.shaPCs[k], term: term})
+		}
+	}
+	pt := fn.Params[0].Type().(*types.Pointer)
+	so := e.sortOf(pt.Elem())
+	fields := e.dtFields[so]
+	for pi, r0 := range runs[0] {
+		for pj, r1 := range runs[1] {
+			hyps := append(append([]T(nil), r0.pc...), r1.pc...)
+			hyps = append(hyps, Eq(r0.pre, r1.pre))
+			for _, f := range fields {
+				skip := false
+				for _, ex := range sp.HashExcept {
+					if ex == f.Name {
+						skip = true
+					}
+				}
+				if skip {
+					continue
+				}
+				var others []T
+				for _, g := range fields {
+					if g.Name == f.Name {
+						continue
+					}
+					a := T{S: fmt.Sprintf("(%s_%s %s)", so, g.Name, r0.term.S), So: g.Sort}
+					b := T{S: fmt.Sprintf("(%s_%s %s)", so, g.Name, r1.term.S), So: g.Sort}
+					others = append(others, Eq(a, b))
+				}
+				a := T{S: fmt.Sprintf("(%s_%s %s)", so, f.Name, r0.term.S), So: f.Sort}
+				b := T{S: fmt.Sprintf("(%s_%s %s)", so, f.Name, r1.term.S), So: f.Sort}
+				name := x.oblName("distinguishes/" + f.Name)
+				if pi+pj > 0 {
+					name = fmt.Sprintf("%s~%d", name, pi*len(runs[1])+pj+1)
+				}
+				o := &Obligation{Name: name, Kind: "hash-injective", Func: fn.String(), Pos: sp.File,
+					Hyps: append(append([]T(nil), hyps...), others...), Goal: Eq(a, b), Expect: "unsat"}
+				x.obls = append(x.obls, o)
+			}
+		}
+	}
+	e.note("sha256 is collision resistant: equal claim hashes mean equal pre-images (C14 obligations compare pre-images)")
+}
